@@ -49,18 +49,21 @@ func vspecSubst(text string, names, values []string) string {
 	return out
 }
 
-// a = {text length, #parameters, value length}
+// a = {text length, #parameters, value length, name length (default 1)}
 func vh_C18_bytes(a []int) { vhC18Bytes(a, false) }
 func vh_C18_twin(a []int)  { vhC18Bytes(a, true) }
 
 func vhC18Bytes(a []int, twin bool) {
-	n, np, vl := a[0], a[1], a[2]
+	n, np, vl, nl := a[0], a[1], a[2], 1
+	if len(a) > 3 {
+		nl = a[3]
+	}
 	text := vBytes("text", n)
 	vhASCII(text)
 	var names, values []string
 	params := map[string]string{}
 	for k := 0; k < np; k++ {
-		nm := vBytes("pname", 1)
+		nm := vBytes("pname", nl)
 		vhASCII(nm)
 		for _, o := range names {
 			vAssume(vNot(vEqStr(o, nm)))
